@@ -232,6 +232,30 @@ func c07NumFGen(r *Rand, tier string) []string {
 	for i := 0; i < n; i++ {
 		out = append(out, c07FNumCase(r), c07FvCase(r))
 	}
+	// long runs (150-400 samples of moderate magnitude): the regime of the accumulated-error theorems, bit for bit
+	nl := 3
+	if tier == "thorough" {
+		nl = 30
+	}
+	for i := 0; i < nl; i++ {
+		m := r.Range(150, 400)
+		h := make([]string, m)
+		fam := r.Intn(3)
+		base := float64(r.Range(1000000, 100000000))
+		for j := range h {
+			var v float64
+			switch fam {
+			case 0: // near-constant, large offset
+				v = base + float64(r.Intn(1000))/1000
+			case 1: // decimal fractions of both signs, a few repeated values (modes)
+				v = float64(r.Range(-50, 50)) / 10
+			default:
+				v = float64(r.Range(-1000000, 1000000)) / float64(r.Range(1, 1000))
+			}
+			h[j] = fmt.Sprintf("%016x", math.Float64bits(v))
+		}
+		out = append(out, fmt.Sprintf("agg numfv 1 %d %s 3fe0000000000000,3fef5c28f5c28f5c", i%2, strings.Join(h, ";")))
+	}
 	// every special spelling alone and next to an ordinary number
 	for _, s := range c07FSpell {
 		out = append(out, "agg numf 1 0 "+HexListS([]string{s})+" 0.5")
